@@ -1064,6 +1064,7 @@ func (e *ex) Do(op string) core.Result {
 		x.Close()
 		if last.Fail == "" || last.Sig != r.Sig {
 			core.Count("unconfirmed-timing-failure")
+			core.Count("unconfirmed-timing-failure:" + r.Sig)
 			last.Fail, last.Sig = "", ""
 			return last
 		}
